@@ -485,8 +485,12 @@ nni_dialer_start_aio(nni_dialer *d, unsigned flags, nni_aio *aiop)
 		return (NNG_ESTATE);
 	}
 
-	if (aiop != NULL) {
-		nni_aio_start(aiop, NULL, NULL);
+	if ((aiop != NULL) && (!nni_aio_start(aiop, NULL, NULL))) {
+		// The aio was stopped, aborted or has a zero timeout, and
+		// has been completed by nni_aio_start; it must not be
+		// completed again by the connect callback.
+		nni_atomic_flag_reset(&d->d_started);
+		return (0);
 	}
 
 	// Note that flags is currently unused, since the only flag is
